@@ -425,6 +425,21 @@ func Go(site string, fn func()) {
 	s.pre(site)
 }
 
+// GoBg starts fn as a background task (one that may legitimately outlive the run); outside a
+// simulation it is a plain go statement.
+func GoBg(site string, fn func()) {
+	s := active()
+	if s == nil {
+		go fn()
+		return
+	}
+	t := s.spawn(site, fn)
+	s.mu.Lock()
+	t.bg = true
+	s.mu.Unlock()
+	s.pre(site)
+}
+
 // AfterFunc is the instrumented time.AfterFunc: f runs as a task.
 func AfterFunc(d time.Duration, f func()) *time.Timer {
 	s := active()
